@@ -559,6 +559,26 @@ func intervene12(h h12, iv string) h12 {
 				op["labels"] = mapStrings(ls, fix)
 			}
 		})
+	case "no-heredoc-raw":
+		var fixRaw func(r map[string]any)
+		fixRaw = func(r map[string]any) {
+			if src, ok := r["src"].(string); ok && strings.HasPrefix(src, "<<") {
+				r["src"] = "\"h\""
+				changed = true
+			}
+			if args, ok := r["args"].([]any); ok {
+				for _, a := range args {
+					if m, ok := a.(map[string]any); ok {
+						fixRaw(m)
+					}
+				}
+			}
+		}
+		walkOps(opsOf(n), func(op map[string]any) {
+			if r, ok := op["raw"].(map[string]any); ok {
+				fixRaw(r)
+			}
+		})
 	default:
 		return nil
 	}
